@@ -312,6 +312,13 @@ def main(argv):
             srctie.generate(prop, "/repo")
         except Exception:
             pass
+    if os.environ.get("VERIF_REPO") and hasattr(mod, "generate_lean"):
+        # ... and the behaviour-derived file measured on the scratch checkout: back to the committed measurement of /repo
+        try:
+            import subprocess as _sp
+            _sp.run(["git", "checkout", "--", f"lean/RpylibModel/Generated/{prop}.lean"], cwd=str(cm.ROOT), capture_output=True, timeout=60)
+        except Exception:
+            pass
 
     # ---- 4. classification ------------------------------------------------------------------------------------------
     unknown_oracle, tie = [], []
